@@ -247,6 +247,12 @@ impl<M: GuestAddressSpace> VringState<M> {
 
     /// Read event from the kick `EventFd`.
     fn read_kick(&self) -> io::Result<bool> {
+        // A disabled vring is not processed: leave the notification in the eventfd, it is
+        // delivered once the vring is enabled again.
+        if !self.enabled {
+            return Ok(false);
+        }
+
         if let Some(kick) = &self.kick {
             kick.consume()?;
         }
